@@ -91,7 +91,8 @@ inductive Damage where
   -- write phase: the first output cannot be put in place without any fault injection (its name is taken by a directory,
   -- or the temp name is too long): an I/O error in the first notedownSrc
   | outputBlocked
-  -- clean phase: the `[dir]` argument holds an unclosed `[`: Clean's filepath.Glob fails (ErrBadPattern) AFTER the writes (finding F_glob_dir)
+  -- the `[dir]` path holds an unclosed `[`: Clean's filepath.Glob used to fail AFTER the writes (former finding F_glob_dir);
+  -- since /repo a3d970c the path is literal and this is an ordinary successful run
   | cleanGlobBad
   deriving DecidableEq, Repr
 
@@ -109,6 +110,6 @@ def classify (cmd : Cmd) (d : Damage) (outs : List String) (stale : List String)
     | .enum => { outputs := outs }     -- enum skips the name with a warning and generates the others
   | .notInFile | .restResults | .restAliasDup | .restParseFail | .exportedGetFlag | .manualBadParam | .manualTwice | .formatFail => { gen := .fatal }
   | .outputBlocked => { outputs := outs, removes := stale, writeErr := some 0 }
-  | .cleanGlobBad => { outputs := outs, removes := stale, cleanErr := some 0 }
+  | .cleanGlobBad => { outputs := outs, removes := stale }
 
 end ShootVerif.Phases
